@@ -43,3 +43,44 @@ Fixpoint dedup (l : list aa) : list aa :=
 (* result = (reduced sequence, alphabet as a duplicate-free list) *)
 Definition reduce_user (u : udict) (s : list aa) : option (list aa * list aa) :=
   if user_accepted u then Some (map (uapply u) s, dedup (map (uapply u) all20)) else None.
+
+(* the public entry point: userAlphabet is a non-empty dict (UDict), an empty
+   container / the default (UNone), or a non-empty non-dict (UNotDict) *)
+Inductive ualpha := UNone | UDict (u : udict) | UNotDict.
+
+Definition reduce_api (allowed : list Z) (f : Z -> aa -> aa) (alph : Z -> list aa)
+           (k : Z) (ua : ualpha) (s : list aa) : option (list aa * list aa) :=
+  match ua with
+  | UNotDict => None
+  | UDict (p :: u) => reduce_user (p :: u) s
+  | _ => match reduce_predef allowed f k s with
+         | Some r => Some (r, alph k)
+         | None => None
+         end
+  end.
+
+Fixpoint list_aa_eqb (a b : list aa) : bool :=
+  match a, b with
+  | [], [] => true
+  | x :: a', y :: b' => aa_eqb x y && list_aa_eqb a' b'
+  | _, _ => false
+  end.
+
+(* alphabets are compared as duplicate-free sets: the property fixes their members, not their order *)
+Fixpoint nodup_aa_b (l : list aa) : bool :=
+  match l with [] => true | x :: l' => negb (mem_aa x l') && nodup_aa_b l' end.
+Definition set_aa_eqb (a b : list aa) : bool :=
+  nodup_aa_b b && Nat.eqb (length a) (length b) &&
+  forallb (fun x => mem_aa x b) a && forallb (fun x => mem_aa x a) b.
+
+Definition res_eqb (a b : option (list aa * list aa)) : bool :=
+  match a, b with
+  | None, None => true
+  | Some (s1, a1), Some (s2, a2) => list_aa_eqb s1 s2 && set_aa_eqb a1 a2
+  | _, _ => false
+  end.
+
+(* one correspondence case: (size, user alphabet, input, implementation's answer) *)
+Definition check_c12 (allowed : list Z) (f : Z -> aa -> aa) (alph : Z -> list aa)
+           (c : Z * ualpha * list aa * option (list aa * list aa)) : bool :=
+  let '(k, ua, s, r) := c in res_eqb (reduce_api allowed f alph k ua s) r.
